@@ -208,6 +208,12 @@ def c17():
             qs.append(Q(f"{e[3:]}_k{k}", "C17_zones.cpp", e, {"K": k}, unwind=k + 6,
                         unwindset={"find_exclusion_under": 5, "remove": k + 3, "insert": k + 3, "closest": k + 3, "lid:VectorINS_5Zones9Exclusion": k + 3, "erase": k + 3, "_insert_default": k + 3}, tiers=tiers, cc_defs=["LL_REALLOC_UNREACHABLE"]))
     qs.append(Q("initialise", "C17_zones.cpp", "vh_initialise", {"K": 1}, unwind=8))
+    # the same remove/insert lemmas under the exact-dyadic lowering (only compares, min/max and additions are involved: every obligation holds)
+    for k in range(1, 4):
+        for e in ("vh_remove", "vh_insert"):
+            qs.append(Q(f"{e[3:]}_k{k}_dyadic", "C17_zones.cpp", e, {"K": k, "FB": "4096.0f"}, unwind=k + 6,
+                        unwindset={"find_exclusion_under": 5, "remove": k + 3, "insert": k + 3, "lid:VectorINS_5Zones9Exclusion": k + 3, "erase": k + 3, "_insert_default": k + 3},
+                        tiers=("thorough",), timeout=1700, cc_defs=["LL_REALLOC_UNREACHABLE"], dyadic=2, memgb=28))
     return qs
 
 # ------------------------------------------------------------------------------------------- C13
@@ -310,16 +316,22 @@ def c16():
 
 # ------------------------------------------------------------------------------------------- C15
 META["C15"] = {
-    "bounds": "Segment::positionSlots / Slot::finalise / floodShift / gr_slot_advance_X/Y on NS = 1..2 slots (thorough 3) in every attachment forest, both directions, final and non-final, symbolic finite shifts/advances/attachment points/justification/glyph boxes with |v| <= 2^16 (bit-precise IEEE-754), unhinted font with scale 2^k, k in {-2, 1, 3}: origins and advances with the font are bit-exactly scale x the design-unit values",
+    "bounds": "exact-dyadic lowering (float = value x 16 in int32, every operation with exactness and 24-bit representability obligations discharged in the same query): Segment::positionSlots / Slot::finalise / floodShift / gr_slot_advance_X/Y on NS = 1 slot (thorough 2..3, every attachment forest), both directions, final and non-final, symbolic shifts/advances/attachment points/justification/glyph boxes on the 1/16 grid with |v| <= 1024, unhinted font with scale 1, 2, 8: origins and advances with the font are exactly scale x the design-unit values",
     "outside": "non-power-of-two scales ('up to single-precision rounding' is claimed only in its exact instance); hinted fonts; collision offsets (no collision info in the world); font-independence of glyph ids/attachments (passes run with font = 0 by construction: Segment::finalise is the only consumer)",
     "assumptions": ["slots' glyph ids index the glyph cache", "no reordering between the two runs (currdir == isRtl)"],
 }
 @prop("C15")
 def c15():
     qs = []
-    for k in (-2, 1, 3):
-        qs += slot_queries("C15", ["vh_scale"], 2, 3, extra={"KEXP": k}, src="posn.cpp", with_forest=True)
-    for q in qs: q.name = q.name + "_k" + str(q.defines["KEXP"]).replace("-", "m")
+    for k in (0, 1, 3):           # scale 1, 2, 8 (a scale below 1 moves products off the 1/16 grid: obligation fails, no verdict)
+        for rtl in (0, 1):
+            for fin in (0, 1):
+                if k != 1 and (rtl, fin) != (0, 1): continue
+                part = slot_queries("C15", ["vh_scale"], 1, 3, extra={"KEXP": k, "FBOUND": "1024.0f", "RTLV": rtl, "FINALV": fin}, src="posn.cpp", with_forest=True)
+                for q in part:
+                    q.name = q.name + f"_k{k}_r{rtl}f{fin}".replace("-", "m"); q.dyadic = 4; q.timeout = 1700 if q.defines["NS"] > 1 else None
+                    if q.defines["NS"] == 2 and q.defines.get("FORESTV") == "-1,0" and k == 1 and fin == 1: q.tiers = ("quick", "thorough"); q.timeout = None   # one attached pair in the quick tier (~110 s)
+                qs += part
     return qs
 
 # ------------------------------------------------------------------------------------------- C06
@@ -337,7 +349,7 @@ def c06():
             if n >= 2: continue        # two or more slots: solver out of memory / no verdict in 1500 s (rule-merge array with symbolic positions); outside the claim
             qs.append(Q(f"runfsm_n{n}_at{st}", "fsm.cpp", "vh_runfsm", {"NS": n, "WSTART": st}, unwind=n + 6, unwindset={"accumulate_rules": 5, "runFSM": n + 2, "reset": 3, "make_pass": 8}, tiers=tiers))
         if n >= 2:
-            qs.append(Q(f"rule_loop_n{n}", "fsm.cpp", "vh_rule_loop", {"NS": n, "SCRIPT": 5}, unwind=n + 9, unwindset={"runGraphite": 8, "vh_rule_loop": 9}, tiers=tiers,
+            qs.append(Q(f"rule_loop_n{n}", "fsm.cpp", "vh_rule_loop", {"NS": n, "SCRIPT": 5, "VH_RULE_LOOP": None}, unwind=n + 9, unwindset={"runGraphite": 8, "vh_rule_loop": 9}, tiers=tiers,
                         unit_flags={"Pass": ["-fno-inline"]}, stubs=["_ZNK9graphite24Pass11findNDoRuleERPNS_4SlotERNS_2vm7MachineERNS_18FiniteStateMachineE"]))
         qs.append(Q(f"adjust_n{n}", "fsm.cpp", "vh_adjust", {"NS": n}, unwind=n + 6, unwindset={"adjustSlot": 6, "make_pass": 8}, tiers=tiers))
     return qs
